@@ -47,11 +47,21 @@ def func_range(path, start_line):
 
 
 def rename_in(lines, names):
+    """Rename identifiers outside comments, string and character literals."""
+    pat = re.compile(r'(?<![\w.])(?<!->)(?<!::)(%s)\b(?!\s*::)' % '|'.join(re.escape(n) for n in names)) if names else None
+    lit = re.compile(r'"(?:\\.|[^"\\])*"|\'(?:\\.|[^\'\\])+\'')
     out = []
     for line in lines:
         code, sep, comment = line.partition('//')
-        for n in names:
-            code = re.sub(r'(?<![\w.])(?<!->)(?<!::)%s\b(?!\s*::)' % re.escape(n), n + '_rn', code)
+        if pat is not None:
+            parts = []
+            last = 0
+            for m in lit.finditer(code):
+                parts.append(pat.sub(lambda mm: mm.group(1) + '_rn', code[last:m.start()]))
+                parts.append(m.group(0))
+                last = m.end()
+            parts.append(pat.sub(lambda mm: mm.group(1) + '_rn', code[last:]))
+            code = ''.join(parts)
         out.append(code + sep + comment)
     return out
 
